@@ -68,6 +68,38 @@ def run(ctx):
                 n0 = len(ctx.findings) if hasattr(ctx, "findings") else None
                 bs2 = protocheck.writer_stream(ctx, g, batch, ir, auxinfo, "W%d after %s" % (i, "+".join(applied)))
                 ctx.case(repr(bs2), True)
+        if bs is not None and i % 3 == 1 and not protocheck.is_d7(g, ir):
+            # the same IR written again after a HISTORY of its CFG that leaves the structure as it was: edges are added -- between its
+            # own nodes, to a proxy that belongs to nothing, to a block that joins for the occasion -- and removed again (discard,
+            # remove, -=, ^=; not clear), the visiting block leaves.  What is written depends on what the IR holds now, not on
+            # what its graph once touched: the vertex list names the CFG nodes of the IR, neither more nor fewer
+            rng = ctx.rng
+            nodes = list(ir.cfg_nodes)
+            bis = [bi for m in ir.modules for sec in m.sections for bi in sec.byte_intervals]
+            stranger = g.ProxyBlock()
+            visitor = g.CodeBlock(size=0, offset=0)
+            if bis:
+                visitor.byte_interval = rng.choice(bis)
+            pool = nodes + [stranger] + ([visitor] if bis else [])
+            added = []
+            for _ in range(rng.choice([1, 2, 3, 4])):
+                a, b = rng.choice(pool), rng.choice(pool)
+                e = g.Edge(a, b, rng.choice([None, g.EdgeLabel(g.EdgeType.Branch, False, True)]))
+                if e not in ir.cfg:
+                    ir.cfg.add(e)
+                    added.append(e)
+            how = rng.choice(["discard", "remove", "isub", "ixor"])
+            if how == "isub":
+                ir.cfg -= set(added)
+            elif how == "ixor":
+                ir.cfg ^= set(added)
+            else:
+                for e in added:
+                    getattr(ir.cfg, how)(e)
+            visitor.byte_interval = None
+            ctx.count("second_save_after_cfg_history:" + how)
+            bs3 = protocheck.writer_stream(ctx, g, batch, ir, auxinfo, "W%d after a CFG history (%d edges added and removed by %s)" % (i, len(added), how))
+            ctx.case(repr(bs3), True)
     enum_by_name_oracle(ctx, g)
     aux_field_scenarios(ctx, g)
     forward_references(ctx, g)
